@@ -3,6 +3,7 @@
 # Verifies the seed (demo fails with the patch, passes without) in a scratch worktree and runs
 # the property's check against that worktree (VERIF_REPO), leaving /repo untouched.
 set -u
+mkdir -p /tmp/seed_out /tmp/wt
 SEED="$1"; PROP="$2"; TIER="${3:-quick}"
 WT="/tmp/wt/try_$(basename "$SEED")_$$"
 git -C /repo worktree add -q --detach "$WT" HEAD || exit 9
